@@ -22,6 +22,13 @@ only their count is used — and are integers or `nan` for the comparison forms)
 
 Comparison values: a decimal integer, `nan`, or `nz` (negative zero: equal to `0`, like IEEE -0.0 == 0.0).
 
+Compact operand spelling for huge arrays (both ends expand it with the same integer formula):
+`h<shape>~<lo>~<m>~<o>[~<pos>=<tok>;<pos>=<tok>…]` = the array of that shape whose element `i` is
+`lo + ((((i+1+o*7919)*2654435761) % 2^32) / 65536) % m`, with the listed positions overridden.
+
+    seq <case> / <case> / …            several cases executed one after the other on one thread (hidden state, A–B–A,
+                                       the same arguments through several element types); answers joined by ` / `
+
 Answers: `ok shape:term,term,…` with terms in prefix notation (`o.x.y` operator, `g.x.y` compound
 assignment, `u.x` unary, `aI`/`bI` operand elements, `s` the scalar), `ok true|false`, `ok lt|eq|gt|none`,
 `ok same|differ`, `err <Variant>`, `panic`.
@@ -47,18 +54,49 @@ def parseShapeCount? (s : String) : Option (List Nat × Nat) :=
     some (shape, if el == "-" then 0 else (el.splitOn ",").length)
   | _ => none
 
+/-- element `i` of the compact spelling `h<shape>~lo~m~o` -/
+def hval (lo : Int) (m o i : Nat) : Int := lo + Int.ofNat (((((i + 1 + o * 7919) * 2654435761) % 4294967296) / 65536) % m)
+
+/-- `h<shape>~lo~m~o[~pos=tok;…]` → (shape, lo, m, o, overrides) -/
+def parseH? (s : String) : Option (List Nat × Int × Nat × Nat × List (Nat × String)) :=
+  match ((s.drop 1).toString).splitOn "~" with
+  | sh :: lo :: m :: o :: rest => do
+    let shape ← parseNatList? sh; let lo ← parseInt? lo; let m ← parseNat? m; let o ← parseNat? o
+    let ovs ← match rest with
+      | [] => some []
+      | [t] => (t.splitOn ";").mapM (fun e => match e.splitOn "=" with
+          | [p, v] => do let p ← parseNat? p; some (p, v)
+          | _ => none)
+      | _ => none
+    if m == 0 then none else some (shape, lo, m, o, ovs)
+  | _ => none
+
+def parseShapeCountH? (s : String) : Option (List Nat × Nat) :=
+  if s.startsWith "h" then do
+    let (shape, _, _, _, _) ← parseH? s
+    some (shape, shape.prod)
+  else parseShapeCount? s
+
 def symA? (s : String) : Option (Arr Sym) := do
-  let (shape, n) ← parseShapeCount? s
+  let (shape, n) ← parseShapeCountH? s
   some ⟨(List.range n).map Sym.a, shape⟩
 
 def symB? (s : String) : Option (Arr Sym) := do
-  let (shape, n) ← parseShapeCount? s
+  let (shape, n) ← parseShapeCountH? s
   some ⟨(List.range n).map Sym.b, shape⟩
 
 def parseFlt? (s : String) : Option Flt :=
   if s == "nan" then some none else if s == "nz" then some (some 0) else (parseInt? s).map some
 
 def fltArr? (s : String) : Option (Arr Flt) :=
+  if s.startsWith "h" then do
+    let (shape, lo, m, o, ovs) ← parseH? s
+    let base : List Flt := (List.range shape.prod).map (fun i => some (hval lo m o i))
+    let elems ← ovs.foldlM (fun (acc : List Flt) (pv : Nat × String) => do
+      let v ← parseFlt? pv.2
+      if pv.1 < acc.length then some (acc.set pv.1 v) else none) base
+    some ⟨elems, shape⟩
+  else
   match s.splitOn ":" with
   | [sh, el] => do
     let shape ← parseNatList? sh
@@ -88,7 +126,7 @@ def handleCmp (_ty rel a b : String) : Option String := do
   | "partial_cmp" => some (showRes showOrd (opPartialCmp Flt.pcmp a b))
   | _ => none
 
-def handle (op : String) (args : List String) : Option String :=
+def handle1 (op : String) (args : List String) : Option String :=
   match op, args with
   | "arr_arr", [_, _, a, b] => do
     let a ← symA? a; let b ← symB? b
@@ -142,6 +180,23 @@ def handle (op : String) (args : List String) : Option String :=
   | "cmp_self", [ty, rel, a] => handleCmp ty rel a a
   | "cmp", [ty, rel, a, b] => handleCmp ty rel a b
   | _, _ => none
+
+/-- split an argument list at the `/` tokens -/
+def splitSlash (args : List String) : List (List String) :=
+  let (cur, done) := args.foldl (fun (st : List String × List (List String)) t =>
+    if t == "/" then ([], st.1.reverse :: st.2) else (t :: st.1, st.2)) ([], [])
+  (cur.reverse :: done).reverse
+
+def handle (op : String) (args : List String) : Option String :=
+  match op with
+  | "seq" => do
+    let answers ← (splitSlash args).mapM (fun c => match c with
+      | o :: as => handle1 o as
+      | [] => none)
+    some (" / ".intercalate answers)
+  -- bookkeeping line of the harness (how many A–B–A re-runs / seq members it executed)
+  | "state_report" => some "ok report"
+  | _ => handle1 op args
 
 end Driver.C20
 
